@@ -54,6 +54,11 @@ def main(args):
     fails = 0
     for i in range(times):
         rc, out = vlib.sh([os.path.join(vlib.HARNESS, "target", "debug", binname)] + mk(sfile, tfile), timeout=600)
+        if vlib.crashed(rc):
+            # the library killed the process (memory fault): that IS the reproduced failure
+            print("run %d: the harness process was killed by a signal (rc %d) while executing the schedule" % (i + 1, rc))
+            fails += 1
+            continue
         if rc != 0:
             print("TOOL-ERROR: harness failed: %s" % out[-1000:])
             return 2
